@@ -17,14 +17,10 @@ import IpcHub.Model.Flv
 namespace IpcHub.FlvJoin
 open IpcHub.Flv IpcHub.FlvCacheM
 
-/-- the `*flv.Tag` the stream hands to its FLV cache, as the cache model sees it (`uid`: its
-    position in the stream) -/
-def ofTag (uid : Nat) (t : Tag) : FTag :=
-  { uid := uid, tagType := t.tagType.toNat, ts := t.timestamp.toNat, data := t.data }
-
-def indexFrom : Nat → List Tag → List FTag
-  | _, [] => []
-  | i, t :: ts => ofTag i t :: indexFrom (i + 1) ts
+/-- the `*flv.Tag` the stream hands to its FLV cache, as the cache model sees it (the cache never
+    looks at the `uid`, and the writer does not see it) -/
+def ofTag (t : Tag) : FTag :=
+  { uid := 0, tagType := t.tagType.toNat, ts := t.timestamp.toNat, data := t.data }
 
 /-- a cached tag (or the re-stamped copy `PushTo` makes of a header tag) as the client's writer
     sees it -/
@@ -32,8 +28,8 @@ def toTag (t : FTag) : Tag :=
   { tagType := UInt8.ofNat t.tagType, timestamp := UInt32.ofNat t.ts, data := t.data }
 
 /-- the tags handed to the writer of a client that joins after the stream has written `k` tags -/
-def joinTags (gop : Bool) (tags : List Tag) (k : Nat) : List Tag :=
-  (expected gop (indexFrom 0 tags) k).map toTag
+def joinTags (cfg : Cfg) (gop : Bool) (tags : List Tag) (k : Nat) : List Tag :=
+  (expectedFrom { cacheGop := gop, stampNow := cfg.stampNow } (tags.map ofTag) k).map toTag
 
 /-- everything a client receives that attaches (HTTP-FLV / WebSocket-FLV) to a stream fed with
     `frames` after the muxer has written `k` tags, GOP caching `gop`: `NewWriter` with the
@@ -44,7 +40,7 @@ def joinBytes (cfg : Cfg) (vm : VideoMeta) (am : AudioMeta) (date : Bytes) (know
   if vm.codec = .other then none
   else
     let r := muxRun cfg vm am date known frames
-    match clientBytes cfg (muxTypeFlags am) (joinTags gop r.1 k) with
+    match clientBytes cfg (muxTypeFlags am) (joinTags cfg gop r.1 k) with
     | none => none
     | some bs => some (bs, r.2)
 
